@@ -1,7 +1,10 @@
 import Lean.Data.Json
-import PynguinModel.Model.FsIsolation
+import PynguinModel.Model.FsPathStr
 /-! Line-protocol driver for C29: one JSON case per line in, one JSON result per line out.
-case = {"init": [[path, node]…], "ops": [op…]};  result = {"res": […], "created": […], "pre": fs, "post": fs} -/
+case = {"init": [[path, node]…], "ops": [op…], "spell": [{"sp": segs?, "sq": segs?}…]?, "probes": [path…]?};
+result = {"res": […], "created": […], "pre": fs, "post": fs, "iso": [bool…]} where `iso` is the STRING walk of
+`_is_isolated` (`isIsolatedStr`) on the recorded set before exit, for every probe path.  Every path component
+must be a real file name and every spelling must normalise (`normSegs`) to the argument it spells. -/
 open Lean PynguinModel.FsIsolation
 
 deriving instance FromJson, ToJson for Node
@@ -14,9 +17,19 @@ deriving instance FromJson for RemoveApi
 deriving instance FromJson for RmdirApi
 deriving instance FromJson for Op
 
+/-- how operation `i` spells its arguments (segments relative to the sandbox root; absent = normal form);
+`rel` (spelled relative to the working directory = the sandbox root) only concerns the implementation side -/
+structure SpellJ where
+  sp : Option (List String) := none
+  sq : Option (List String) := none
+  rel : Option Bool := none
+  deriving FromJson
+
 structure Case where
   init : List (Path × Node)
   ops : List Op
+  spell : Option (List SpellJ) := none
+  probes : Option (List Path) := none
   deriving FromJson
 
 def resJ : Res → Json
@@ -29,11 +42,30 @@ def resJ : Res → Json
 def fsJ (fs : FS) : Json :=
   Json.arr (fs.map (fun e => Json.arr #[toJson e.1, toJson e.2])).toArray
 
+def spOps (c : Case) : Option (List SpOp) :=
+  match c.spell with
+  | none => some (c.ops.map (fun o => ⟨o, none, none⟩))
+  | some sl =>
+    if sl.length != c.ops.length then none
+    else some ((c.ops.zip sl).map (fun x => ⟨x.1, x.2.sp, x.2.sq⟩))
+
+def argPaths (o : Op) : List Path := let a := opArgs o; a.1 :: a.2.toList
+
 def runCase (c : Case) : Json :=
   if !prefixClosedB c.init then Json.mkObj [("bad-op", "initial tree is not prefix-closed")] else
-  let r := runLog c.ops ⟨c.init, []⟩
+  let probes := c.probes.getD []
+  if !(c.init.all (fun e => cleanPathB e.1) && c.ops.all (fun o => (argPaths o).all cleanPathB)
+       && probes.all cleanPathB) then
+    Json.mkObj [("bad-op", "a path component is not a file name (empty, '.', '..' or contains '/')")] else
+  match spOps c with
+  | none => Json.mkObj [("bad-op", "spell list does not match the operations")]
+  | some ops =>
+  if !ops.all spellsArgs then Json.mkObj [("bad-op", "a spelling does not normalise to its argument")] else
+  let r := runLogSp ops ⟨c.init, []⟩
+  if !r.1.created.all cleanPathB then Json.mkObj [("bad-op", "a recorded path is not made of file names")] else
   Json.mkObj [("res", Json.arr (r.2.map resJ).toArray), ("created", toJson r.1.created),
-              ("pre", fsJ r.1.fs), ("post", fsJ (exitCleanup r.1))]
+              ("pre", fsJ r.1.fs), ("post", fsJ (exitCleanup r.1)),
+              ("iso", toJson (probes.map (fun p => isIsolatedStr r.1.created p)))]
 
 partial def loop (h : IO.FS.Stream) : IO Unit := do
   let line ← h.getLine
